@@ -388,7 +388,7 @@ func randStr(r *vh.Rand, n int) string {
 // randomScenario goes beyond the bounds of PcapFileGen.tla: more and larger packets (files that exceed the
 // readers' 4096-byte buffers), option strings around the 1024-byte option buffer, arbitrary timestamps.
 // Every sixth one (alternating formats) is a jumbo scenario: packets around and above 64 KiB (the readers' chunked
-// read path and the 16-bit boundary) between small ones.
+// read path and the 16-bit boundary) between small ones; the pcapng ones carry option values of 65533..65535 octets.
 func randomScenario(r *vh.Rand, i int) *Scen {
 	caps := []int{0, 1, 2, 3, 4, 5, 17, 60, 1023, 1024, 1025, 1500, 3000, 4095, 4096, 4097}
 	jumbo := i%6 >= 4
@@ -437,6 +437,9 @@ func randomScenario(r *vh.Rand, i int) *Scen {
 	}
 	sc := &Scen{Fmt: "ng", Mixed: r.Intn(3) == 0, Shb: Shb{App: str(), Cmt: str(), Hw: str(), Os: str()}}
 	sc.Items = append(sc.Items, idb(1))
+	if jumbo {
+		sc.Items[0].Descr = randStr(r, 65535-2*r.Intn(2))
+	}
 	nif := 1
 	for i := 0; i < n; i++ {
 		if nif < 3 && r.Intn(4) == 0 {
@@ -452,6 +455,11 @@ func randomScenario(r *vh.Rand, i int) *Scen {
 		it := Item{T: "pkt", Ifc: r.Intn(nif), Cap: c, Len: c + r.Intn(3)*r.Intn(2000), S: s, Ns: ns, Fl: -1, Dc: -1, Pid: -1, Q: -1}
 		for k := r.Intn(3); k > 0; k-- {
 			it.Cm = append(it.Cm, str())
+		}
+		if jumbo && i < 3 {
+			// option values at the 16-bit length boundary: 65533..65535 octets need 3..1 octets of padding, and the
+			// padded length no longer fits the length field's type
+			it.Cm = append(it.Cm, randStr(r, 65533+i))
 		}
 		if r.Intn(3) == 0 {
 			it.Fl = r.Intn(4) | r.Intn(8)<<2 | r.Intn(16)<<5 | r.Intn(0x7fff)<<16
